@@ -178,7 +178,8 @@ def audit(prop, thorough=False):
     missing = [n for n in names if n not in seen]
     for n in missing:
         problems.append('no axiom report for ' + n)
-    res = {'theorems': names, 'discharged': [n for n in names if n in seen], 'axioms': sorted(axioms), 'problems': problems}
+    res = {'theorems': names, 'discharged': [n for n in names if n in seen], 'axioms': sorted(axioms), 'problems': problems,
+           'raw': r.stdout[-1500:] if len(seen) != len(names) else ''}
     if thorough:
         with Lock('lake'):
             r = run(['lake', 'env', 'leanchecker', 'LLTD.Props.' + prop], cwd=LEAN)
